@@ -1377,6 +1377,17 @@ class Executor:
         if isinstance(fv, Func):
             if fv.kind == "builtin":
                 return prelude.call_builtin(self, fv.a[0], args, kwargs, node)
+            if fv.kind == "spec":
+                # callable supplied by the sidecar as an uninterpreted function (abstract callback: cdf, ppf, ...): pure and total
+                (zf,) = fv.a
+                if kwargs or len(args) != zf.arity():
+                    raise OutOfSubset("abstract callable: arity", node)
+                zargs = []
+                for i, x in enumerate(args):
+                    x = V.bool_to_int(x)
+                    zx = V.to_z3(x, zf.domain(i) == z3.RealSort())
+                    zargs.append(zx)
+                return zf(*zargs)
             if fv.kind == "lambda":
                 lam, cenv = fv.a
                 sub = dict(cenv)
